@@ -859,6 +859,19 @@ def repeat(a, repeats):
     return NDArray(out, (len(out),))
 
 
+def bincount(x, weights=None, minlength=0):
+    if weights is not None:
+        raise ModelUnsupported("bincount weights")
+    vals = [int(v) for v in asarray(x)._d]
+    if any(v < 0 for v in vals):
+        raise ValueError("'list' argument must have no negative elements")
+    n = max([int(minlength)] + [v + 1 for v in vals])
+    out = [0] * n
+    for v in vals:
+        out[v] += 1
+    return NDArray(out, (n,), _np.dtype(int))
+
+
 def log(x):
     if isinstance(x, NDArray):
         return NDArray([log(v) for v in x._d], x.shape)
@@ -1059,7 +1072,7 @@ def make_proxy(real_numpy, fallthrough_log):
         "sum": sum_, "unique": unique, "intersect1d": intersect1d, "histogram": histogram,
         "fill_diagonal": fill_diagonal, "concatenate": concatenate, "repeat": repeat, "log": log,
         "sqrt": sqrt, "floor": floor, "ceil": ceil, "isnan": isnan, "sort": sort, "amax": amax,
-        "tril": tril, "triu": triu, "random": RANDOM, "ndarray": NDArray,
+        "tril": tril, "triu": triu, "random": RANDOM, "ndarray": NDArray, "bincount": bincount, "size": lambda a: asarray(a).size,
     }
     return ModuleProxy(real_numpy, over, fallthrough_log)
 
